@@ -23,6 +23,11 @@ mod constants {
 #[derive(Default)]
 pub struct IcyDraw {}
 
+/// fixed part of a layer record after the title: role, 4 unused, mode, colour, flags, transparency, offset, size, font page, data length
+const LAYER_RECORD_LEN: usize = 1 + 4 + 1 + 4 + 4 + 1 + 4 + 4 + 4 + 4 + 2 + 8;
+/// largest layer width / height the loader accepts
+const MAX_LAYER_DIMENSION: i32 = 0x7FFF;
+
 /// maximum ztext chunk size from libpng source
 const MAX: u64 = 3_000_000;
 lazy_static::lazy_static! {
@@ -408,7 +413,7 @@ impl OutputFormat for IcyDraw {
                                         match font_slot.parse() {
                                             Ok(font_slot) => {
                                                 let mut o: usize = 0;
-                                                let (font_name, size) = read_utf8_encoded_string(&bytes[o..]);
+                                                let (font_name, size) = read_utf8_encoded_string(&bytes[o..])?;
                                                 o += size;
                                                 let font = BitFont::from_bytes(font_name, &bytes[o..])?;
                                                 result.set_font(font_slot, font);
@@ -428,7 +433,9 @@ impl OutputFormat for IcyDraw {
                                         let (_, [layer_num, _chunk]) = m.extract();
                                         let layer_num = layer_num.parse::<usize>()?;
 
-                                        let layer = &mut result.layers[layer_num];
+                                        let Some(layer) = result.layers.get_mut(layer_num) else {
+                                            return Err(anyhow::anyhow!("continuation chunk for unknown layer {layer_num}"));
+                                        };
                                         match layer.role {
                                             crate::Role::Normal => {
                                                 let mut o = 0;
@@ -438,6 +445,9 @@ impl OutputFormat for IcyDraw {
                                                         break;
                                                     }
                                                     for x in 0..layer.get_width() {
+                                                        if o + 2 > bytes.len() {
+                                                            return Err(anyhow::anyhow!("data length out ouf bounds"));
+                                                        }
                                                         let mut attr = u16::from_le_bytes(bytes[o..(o + 2)].try_into().unwrap());
                                                         o += 2;
                                                         if attr == crate::attribute::INVISIBLE_SHORT {
@@ -455,6 +465,9 @@ impl OutputFormat for IcyDraw {
                                                             continue;
                                                         }
 
+                                                        if o + if is_short { 4 } else { 14 } > bytes.len() {
+                                                            return Err(anyhow::anyhow!("data length out ouf bounds"));
+                                                        }
                                                         let (ch, fg, bg, font_page) = if is_short {
                                                             let ch = bytes[o] as u32;
                                                             o += 1;
@@ -496,17 +509,22 @@ impl OutputFormat for IcyDraw {
                                             crate::Role::PastePreview => todo!(),
                                             crate::Role::PasteImage => todo!(),
                                             crate::Role::Image => {
-                                                layer.sixels[0].picture_data.extend(&bytes);
+                                                if let Some(sixel) = layer.sixels.first_mut() {
+                                                    sixel.picture_data.extend(&bytes);
+                                                }
                                                 continue;
                                             }
                                         }
                                     }
                                     let mut o: usize = 0;
 
-                                    let (title, size) = read_utf8_encoded_string(&bytes[o..]);
+                                    let (title, size) = read_utf8_encoded_string(&bytes[o..])?;
                                     let mut layer = Layer::new(title, (0, 0));
 
                                     o += size;
+                                    if o + LAYER_RECORD_LEN > bytes.len() {
+                                        return Err(LoadingError::FileTooShort.into());
+                                    }
                                     let role = bytes[o];
                                     o += 1;
                                     if role == 1 {
@@ -558,6 +576,9 @@ impl OutputFormat for IcyDraw {
                                     o += 4;
                                     let height: i32 = u32::from_le_bytes(bytes[o..(o + 4)].try_into().unwrap()) as i32;
                                     o += 4;
+                                    if !(0..=MAX_LAYER_DIMENSION).contains(&width) || !(0..=MAX_LAYER_DIMENSION).contains(&height) {
+                                        return Err(anyhow::anyhow!("layer size out of range: {width}x{height}"));
+                                    }
                                     layer.set_size((width, height));
                                     let default_font_page = u16::from_le_bytes(bytes[o..(o + 2)].try_into().unwrap());
                                     o += 2;
@@ -567,6 +588,9 @@ impl OutputFormat for IcyDraw {
                                     o += 8;
 
                                     if role == 1 {
+                                        if o + 16 > bytes.len() {
+                                            return Err(LoadingError::FileTooShort.into());
+                                        }
                                         let width: i32 = u32::from_le_bytes(bytes[o..(o + 4)].try_into().unwrap()) as i32;
                                         o += 4;
                                         let height: i32 = u32::from_le_bytes(bytes[o..(o + 4)].try_into().unwrap()) as i32;
@@ -613,7 +637,7 @@ impl OutputFormat for IcyDraw {
                                                 }
 
                                                 let (ch, fg, bg, font_page) = if is_short {
-                                                    if o + 3 > bytes.len() {
+                                                    if o + 4 > bytes.len() {
                                                         return Err(anyhow::anyhow!("data length out ouf bounds"));
                                                     }
 
@@ -694,9 +718,15 @@ fn get_invisible_line_length(layer: &Layer, y: i32) -> i32 {
     length
 }
 
-fn read_utf8_encoded_string(data: &[u8]) -> (String, usize) {
+fn read_utf8_encoded_string(data: &[u8]) -> EngineResult<(String, usize)> {
+    if data.len() < 4 {
+        return Err(LoadingError::FileTooShort.into());
+    }
     let size = u32::from_le_bytes(data[0..4].try_into().unwrap()) as usize;
-    (String::from_utf8_lossy(&data[4..(4 + size)]).into_owned(), size + 4)
+    if data.len() - 4 < size {
+        return Err(LoadingError::FileTooShort.into());
+    }
+    Ok((String::from_utf8_lossy(&data[4..(4 + size)]).into_owned(), size + 4))
 }
 
 fn write_utf8_encoded_string(data: &mut Vec<u8>, s: &str) {
